@@ -151,3 +151,10 @@ def run(ctx: Ctx, rep: Report, tier: str):
     rep.rule("C14.W7", "a refresh that discovers a new hash or a new path stamps the side changed (unless ignored / already changed): what was learnt from the "
              "provider is acted upon even if the corresponding event never arrives", expect_min=2)
     refresh_marks_changed(ctx, rep, "C14.W7")
+    from rules.common import refresh_marks_exists
+    rep.rule("C14.W8", "a refresh that finds the object marks the side EXISTS on every path, whether or not the content hash changed: a stale tombstone is "
+             "corrected by the refreshed truth before sync() acts on it", expect_min=1)
+    refresh_marks_exists(ctx, rep, "C14.W8")
+    from rules.common import refresh_stamp_after_fetch
+    rep.rule("C14.W9", "the refresh stamp is stored only after the refresh returned (C10.T8): a failed refresh does not let sync() proceed on the event's stale data", 1)
+    refresh_stamp_after_fetch(ctx, rep, "C14.W9")
